@@ -130,11 +130,12 @@ def good_answer(rng, rq, kt, variant=None):
     return [], None
 
 
-FAULTS = ['silence', 'garbage', 'truncated', 'corrupted', 'foreign_ack', 'nak_first', 'rejected_mga', 'unrelated',
-          'nmea', 'txfail', 'undecodable', 'response_only', 'ack_before_response', 'unregistered_class', 'empty_reads']
+FAULTS = ['silence', 'garbage', 'truncated', 'truncated', 'corrupted', 'foreign_ack', 'nak_first', 'rejected_mga', 'unrelated',
+          'nmea', 'txfail', 'undecodable', 'response_only', 'ack_before_response', 'unregistered_class', 'empty_reads',
+          'stale_ck', 'marker_then_answer_late', 'answer_too_late']
 
 
-def fault_events(rng, rq, kt, fault, mode):
+def fault_events(rng, rq, kt, fault, mode, delay=100, others=()):
     """Receive events of an attempt that does NOT contain a correct, timely answer."""
     c, i = rq.cid
     ans, _ = good_answer(rng, rq, kt, 'ack')
@@ -159,7 +160,21 @@ def fault_events(rng, rq, kt, fault, mode):
     elif fault == 'rejected_mga':
         data = G.frame(0x13, 0x60, bytes([0, 0, rng.randrange(1, 7), i, 1, 2, 3, 4]))
     elif fault == 'unrelated':
-        data = b''.join(Q.inert_traffic(rng, rq.filt()) for _ in range(3))
+        data = b''.join(Q.inert_traffic(rng, rq.filt(), [o for o in others if o not in rq.filt()]) for _ in range(3))
+    elif fault == 'stale_ck':
+        # aborted frame start, then an answer whose checksum continues from the aborted bytes (never valid)
+        fr = ans[0] if ans else G.frame(5, 1, bytes([c, i]))
+        data = G.stale_checksum_stream(rng, fr[2], fr[3], fr[6:-2])
+        if data.endswith(fr):
+            data = data[:-len(fr)]
+    elif fault == 'marker_then_answer_late':
+        # a corrupted answer-class frame and the complete good answer in ONE read that ends after the deadline:
+        # only the error marker is dequeued before the timeout; the answer must not survive into the next attempt
+        bad = bytearray(ans[0] if ans else G.frame(5, 1, bytes([c, i])))
+        bad[-1] ^= 0x55
+        return [(bytes(bad) + full, delay + rng.choice([0, 1, 5]))]
+    elif fault == 'answer_too_late':
+        return [(None, delay + 1), (full, 1)] if full else []
     elif fault == 'nmea':
         data = G.nmea(b'GPGGA,1,2,3') + G.nmea(b'GPTXT,\xb5b', good=False)
     elif fault == 'undecodable':
@@ -191,6 +206,7 @@ def scenario(rng, reqs, kt, n_req=1, force=None):
     rqs = [rng.choice(reqs) for _ in range(n_req)]
     attempts = []
     plan = []
+    others = sorted(set(r.cid for r in rqs))
     for rq in rqs:
         if rq.op == 'fire':
             attempts.append((rng.random() < 0.9, fault_events(rng, rq, kt, rng.choice(['silence', 'garbage', 'unrelated']), 'random')))
@@ -207,7 +223,7 @@ def scenario(rng, reqs, kt, n_req=1, force=None):
                 frames, info = good_answer(rng, rq, kt)
                 data = b''
                 for fr in frames:
-                    data += Q.inert_traffic(rng, rq.filt()) + fr
+                    data += Q.inert_traffic(rng, rq.filt(), [o for o in others if o not in rq.filt()]) + fr
                 evs = Q.chunk(rng, data, mode, [0, 0, 1] if delay >= 100 else [0])
                 total = sum(dt for _, dt in evs)
                 # conservatively "in time": everything, plus two idle reads for packets queued behind others, fits the period
@@ -219,11 +235,11 @@ def scenario(rng, reqs, kt, n_req=1, force=None):
             if fault == 'txfail':
                 this.append((False, []))
             else:
-                this.append((True, fault_events(rng, rq, kt, fault, mode)))
+                this.append((True, fault_events(rng, rq, kt, fault, mode, delay, others)))
             plan.append((fault, a))
         attempts += this
     pending = fault_events(rng, rqs[0], kt, rng.choice(['silence', 'silence', 'garbage', 'truncated']), 'random') if rng.random() < 0.3 else []
-    script = {'pending': pending, 'attempts': attempts, 'idle': idle}
+    script = {'pending': pending, 'attempts': attempts, 'idle': idle, 'drain': rng.random() < 0.5}
     return {'retries': retries, 'delay': delay, 'script': script, 'reqs': rqs, 'plan': plan}
 
 
